@@ -10,6 +10,49 @@ for l in open(os.path.join(VERIF, "properties.jsonl")):
 
 # id -> (category, technique, text, note, design_ref)
 CLAIMED = {
+    "C19": ("proof",
+            "Lean 4 theorems over all histories of an object-store model (independence, no argument mutation, answers are "
+            "functions of receiver and arguments) + translator for the aliasing facts (obligation facts_safe_partial) + "
+            "history correspondence against pristine processes",
+            "Props/C19.lean proves, for the object store of Model/Heap.lean and EVERY history of operations (construct with "
+            "defaults / fresh literals / from another object, mutate one object, query with arbitrary arguments; unbounded "
+            "length and pool): if no constructor stores a default object or a container of its source by reference, objects "
+            "created independently never influence each other (independence, independence_history; invariant: the containers "
+            "of distinct objects and the caller's argument objects are pairwise distinct cells); if additionally no method "
+            "writes through its argument, every argument object is unchanged by any further history (no_arg_mutation); if no "
+            "memo is keyed on nothing and direct mutations are followed by the cache invalidation the API provides, every "
+            "answer equals f(receiver contents, argument contents) - nothing constructed, mutated elsewhere or computed before "
+            "enters (result_depends_only_on_receiver_and_args, query_stable). Each hypothesis is shown necessary by a witness "
+            "theorem (shared_default_breaks_independence, shared_source_breaks_independence, stale_memo, "
+            "mutating_method_changes_argument, stale_after_raw_mutation). The descriptors are NOT hand-written: "
+            "harness/aliasfacts.py scans all 779 functions of the loaded embit modules (loaded objects for defaults, ast for "
+            "what the body does with each parameter) for mutable literal defaults (stored / copied / None-guarded, confirmed "
+            "by identity probes A().x is A().x), memo fields and whether the cached value depends on arguments or misses the "
+            "invalidator, writes through parameters (before/after probes), constructors writing into argument objects, "
+            "builder methods writing their receiver, byte buffers handed to native code (shared constant / alias of an "
+            "argument), plus always-on probes of the repaired defects, into Generated/AliasFacts.lean; "
+            "Props/C19Facts.facts_safe_partial (by kernel evaluation) is the obligation that every such site is safe, and "
+            "embit_descriptors_safe / embit_results_depend_only_on_arguments instantiate the theorems with the extracted "
+            "library. Partial: eleven functions that modify an argument by documented contract (in-place tweak variants of "
+            "both secp256k1 back ends, hash/stream sinks, the scope passed to sign_input_with_tapkey) and the recorded "
+            "unrepaired defect D31 (Descriptor / TapTree constructors write k.taproot into the caller's keys) are excluded "
+            "by name in the theorem file. Each run also executes seeded random histories over real objects (Transaction, "
+            "Witness, PSBT, PSBT/PSET scopes, PSBTView, HDKey, descriptor keys, descriptors, tap trees, AllowedDerivation, "
+            "bytearrays; construct, mutate, derive / branch / neuter, sign, legacy / segwit / taproot digests with varying "
+            "arguments, parse, serialise, mnemonic_from_bytes) in a process forked from a pristine interpreter and compares "
+            "every call with the same call in its own pristine process on freshly built equal arguments, every other pool "
+            "object, every argument and every default object with their pictures before the call (failures are shrunk to "
+            "minimal histories); the part of each history the model speaks about is run through the native Lean model with "
+            "the extracted descriptors and the aliasing / staleness / argument-change pattern must agree. Ten defects were "
+            "found this way and repaired (fixes/c19-*.diff), one is recorded as known (D31).",
+            "Trusted: Lean kernel + propext/Quot.sound/Classical.choice; the translator (its AST rules decide what counts as a "
+            "hazard; anything it cannot classify is emitted as unclassified and breaks the obligation); the harness. The model "
+            "is abstract (objects = lists of container cells): Script, TransactionInput/Output, EC and HD keys are treated as "
+            "values whose attributes histories do not assign; a direct change of Transaction.vin/vout without clear_cache() "
+            "is outside the claim (stale_after_raw_mutation states what happens). Module-level constant tables used as "
+            "defaults (NETWORKS[...], WORDLIST) are shared by design and only checked to be unchanged after every history. "
+            "Liquid blinding / unblinding calls are covered by the translator and its probes, not by the histories.",
+            "§5 C19"),
     "C16": ("proof",
             "Lean 4 theorems (GF(256) field + Mathlib Lagrange uniqueness, Feistel inverse, RS1024 linearity and GF(2) rank "
             "checks, text round trip, refusal logic; all inputs) + model/spec/implementation correspondence",
